@@ -42,6 +42,9 @@ struct OpResult {
   string bytes; // output buffer including 8 guard bytes on each side for kind 0
   int64_t value = 0;
   uint64_t dev_reads = 0, dev_errors = 0, dev_short = 0, dev_page_cut = 0;
+  // state of the device after this call (and, for random_int, after the resynchronising drain that follows it)
+  uint64_t dev_pos_after = 0;
+  size_t script_pos_after = 0;
 };
 
 struct PassResult {
@@ -152,7 +155,12 @@ static bool drain_refill_buffer() {
   return true;
 }
 
-static PassResult run_pass(const std::vector<Op>& ops, const std::vector<int>& script) {
+// `mirror`: the first pass. random_int may consume a number of device bytes that depends on the bytes it draws
+// (rejection sampling is a legitimate implementation), and the second pass sees the complemented stream. After
+// every random_int call both passes therefore empty the refill buffer on a healthy device, and the second pass
+// continues from the device position and script position the first pass had at that point: whatever the call
+// consumed, the calls after it meet the same device in both passes.
+static PassResult run_pass(const std::vector<Op>& ops, const std::vector<int>& script, const PassResult* mirror) {
   PassResult pr;
   uint64_t dev_start = 0;
   std::thread t([&]() {
@@ -224,6 +232,26 @@ static PassResult run_pass(const std::vector<Op>& ops, const std::vector<int>& s
       r.dev_short = c.short_reads;
       r.dev_page_cut = c.short_reads_page;
       if (i == 0) pr.first_call_read_device = c.reads > 0;
+      if (op.kind == 3) {
+        uint64_t pos;
+        size_t spos;
+        vfs::urandom_get_state(pos, spos);
+        vfs::urandom_script_suspend(true);
+        set_context("");
+        bool ok = drain_refill_buffer();
+        vfs::urandom_script_suspend(false);
+        if (!ok) {
+          pr.served_without_device = true;
+          pr.ops.push_back(r);
+          return;
+        }
+        uint64_t pos_now;
+        size_t ignored;
+        vfs::urandom_get_state(pos_now, ignored);
+        if (mirror && i < mirror->ops.size()) vfs::urandom_set_state(mirror->ops[i].dev_pos_after, mirror->ops[i].script_pos_after);
+        else vfs::urandom_set_state(pos_now, spos);
+      }
+      vfs::urandom_get_state(r.dev_pos_after, r.script_pos_after);
       pr.ops.push_back(r);
     }
   });
@@ -276,13 +304,13 @@ static void run() {
 
   // pass A
   vfs::set_urandom(mode, dseed);
-  PassResult A = run_pass(ops, script);
+  PassResult A = run_pass(ops, script, nullptr);
   if (A.served_without_device) {
     fail("random_data/bytes_not_from_device", "fresh_thread", "on a freshly started thread random_data handed out more than 64 MiB without reading the entropy device once: what it serves was never filled from the device (state left behind by calls on other threads)");
   }
   // pass B: complement stream (mode + 100 => complement of mode)
   vfs::set_urandom(mode + 100, dseed);
-  PassResult B = run_pass(ops, script);
+  PassResult B = run_pass(ops, script, &A);
   if (B.served_without_device) fail("random_data/bytes_not_from_device", "fresh_thread", "on a freshly started thread random_data handed out more than 64 MiB without reading the entropy device once");
   set_context("");
 
@@ -293,7 +321,13 @@ static void run() {
     const OpResult& b = B.ops[i];
     ev("op", op.kind, op.kind == 3 ? (uint64_t)op.lo : op.n + op.width, a.threw);
     if (a.threw != b.threw) {
-      fail("random/nondeterministic_failure", "two_pass", op_name(op) + " threw in one pass and not in the other although the device behaved identically");
+      // (random_int may read the device a different number of times in the two passes - its draws differ - and so
+      // meet a scripted fault in one pass only; that is explained by the fault)
+      const OpResult& thrower = a.threw ? a : b;
+      if (!(op.kind == 3 && (thrower.dev_errors || thrower.dev_short)))
+        fail("random/nondeterministic_failure", "two_pass", op_name(op) + " threw in one pass and not in the other although the device behaved identically");
+      VS_PROBE("threw_on_device_fault");
+      continue;
     }
     if (a.threw) {
       if (!a.dev_errors && !a.dev_short && a.dev_page_cut) {
@@ -433,6 +467,7 @@ static void probe_first_use_without_free_descriptor() {
 }
 
 static void process_init() {
+  vfs::simulate_getrandom(true);
   probe_first_use_with_descriptor_0();
   probe_first_use_without_free_descriptor();
   // random_data opens the device through a function-local static on its first call ever; do that
